@@ -44,6 +44,40 @@ use std::path::Path;
 
 use minijinja::{Environment, Error};
 
+/// Scheduling instrumentation (cargo feature `verif_hooks`, off by default).
+///
+/// A test harness can install a callback that is invoked with the name of the
+/// yield point before every lock acquisition of the reloader and around the
+/// creator call, which lets a deterministic scheduler enumerate interleavings.
+#[cfg(feature = "verif_hooks")]
+#[doc(hidden)]
+pub mod __verif {
+    use std::sync::{Arc, RwLock};
+
+    type Hook = dyn Fn(&'static str) + Send + Sync;
+
+    static HOOK: RwLock<Option<Arc<Hook>>> = RwLock::new(None);
+
+    /// Installs (or with `None` removes) the process wide yield hook.
+    pub fn set_yield_hook(f: Option<Box<Hook>>) {
+        *HOOK.write().unwrap() = f.map(Arc::from);
+    }
+
+    pub(crate) fn yield_point(name: &'static str) {
+        let hook = HOOK.read().unwrap().clone();
+        if let Some(hook) = hook {
+            hook(name);
+        }
+    }
+}
+
+#[cfg(feature = "verif_hooks")]
+use self::__verif::yield_point;
+
+#[cfg(not(feature = "verif_hooks"))]
+#[inline(always)]
+fn yield_point(_name: &'static str) {}
+
 type EnvCreator = dyn Fn(Notifier) -> Result<Environment<'static>, Error> + Send + Sync + 'static;
 
 /// An auto reloader for MiniJinja [`Environment`]s.
@@ -89,11 +123,14 @@ impl AutoReloader {
     /// returned from this method and the reload stays scheduled, so the next
     /// call tries again.
     pub fn acquire_env(&self) -> Result<EnvironmentGuard<'_>, Error> {
+        yield_point("acquire_env:cache_lock");
         let mut mutex_guard = self.cached_env.lock().unwrap();
         if mutex_guard.is_none() || self.notifier.should_reload() {
             let weak_notifier = self.notifier.prepare_and_mark_reload()?;
             if mutex_guard.is_none() || !self.notifier.fast_reload() {
+                yield_point("acquire_env:creator_before");
                 let created = (self.env_creator)(weak_notifier);
+                yield_point("acquire_env:creator_after");
                 match created {
                     Ok(env) => *mutex_guard = Some(env),
                     Err(err) => {
@@ -171,8 +208,10 @@ impl Notifier {
     /// Tells the notifier that the environment needs reloading.
     pub fn request_reload(&self) {
         if let Some(handle) = self.handle() {
+            yield_point("request_reload:flag_lock");
             handle.lock().unwrap().should_reload = true;
 
+            yield_point("request_reload:callback_lock");
             if let Some(callback) = handle.lock().unwrap().on_should_reload_callback.as_ref() {
                 callback();
             }
@@ -293,6 +332,7 @@ impl Notifier {
         let Some(handle) = self.handle() else {
             return false;
         };
+        yield_point("fast_reload:lock");
         let inner = handle.lock().unwrap();
         inner.fast_reload
     }
@@ -301,6 +341,7 @@ impl Notifier {
         let Some(handle) = self.handle() else {
             return false;
         };
+        yield_point("should_reload:lock");
         let inner = handle.lock().unwrap();
 
         // Early return if we already know we should reload so that
@@ -367,6 +408,7 @@ impl Notifier {
         let handle = self.handle().expect("notifier unexpectedly went away");
         #[cfg(feature = "watch-fs")]
         {
+            yield_point("prepare_and_mark_reload:watcher_lock");
             let mut locked_handle = handle.lock().unwrap();
             if !locked_handle.persistent_fs_watcher && !locked_handle.fast_reload {
                 locked_handle.fs_watcher.take();
@@ -375,12 +417,14 @@ impl Notifier {
         let weak_notifier = Notifier {
             handle: NotifierImplHandle::Weak(Arc::downgrade(&handle)),
         };
+        yield_point("prepare_and_mark_reload:flag_lock");
         handle.lock().unwrap().should_reload = false;
         Ok(weak_notifier)
     }
 
     fn restore_reload(&self) {
         if let Some(handle) = self.handle() {
+            yield_point("restore_reload:lock");
             handle.lock().unwrap().should_reload = true;
         }
     }
